@@ -778,7 +778,9 @@ nni_aio_iov_advance(nni_aio *aio, size_t n)
 {
 	size_t residual = n;
 	while (n) {
-		NNI_ASSERT(aio->a_nio != 0);
+		if (aio->a_nio == 0) {
+			break; // count exceeds the iov; the rest is left over
+		}
 		if (aio->a_iov[0].iov_len > n) {
 			aio->a_iov[0].iov_len -= n;
 			NNI_INCPTR(aio->a_iov[0].iov_buf, n);
